@@ -177,3 +177,61 @@ pub fn run(tier: &str, report: &mut Report) {
         }
     }
 }
+
+/// Sampling supplement (NOT part of the exhaustive claim, reported separately): threads
+/// hammer delete / re-create on a few keys without the controller; at every quiescent
+/// point the ordered index and the hash index must hold the same keys. A race window
+/// that lies between two adjacent hook points is invisible to the controlled scheduler
+/// but can be hit here.
+pub fn stress_supplement(report: &mut Report, seconds: f64) {
+    let dl = crate::util::Deadline::new(seconds);
+    let mut rounds = 0u64;
+    let mut ops = 0u64;
+    while !dl.expired() && rounds < 200 {
+        let Ok(mut sut) = Sut::create(Cfg::memory(), "c14stress") else { return };
+        let st = sut.store().clone();
+        let keys: Vec<Vec<u8>> = (0..4).map(|i| format!("k{i}").into_bytes()).collect();
+        std::thread::scope(|sc| {
+            for t in 0..3 {
+                let st = st.clone();
+                let keys = keys.clone();
+                sc.spawn(move || {
+                    for i in 0..4000u32 {
+                        let k = &keys[(i as usize + t) % keys.len()];
+                        match (t + i as usize) % 3 {
+                            0 => {
+                                let _ = st.delete(k);
+                            }
+                            1 => {
+                                let _ = st.insert_if_absent(k, b"v");
+                            }
+                            _ => {
+                                let _ = st.insert(k, b"w");
+                            }
+                        }
+                    }
+                });
+            }
+        });
+        ops += 12_000;
+        rounds += 1;
+        let d = st.verif_dump();
+        let hash: Vec<&Vec<u8>> = d.records.iter().map(|r| &r.key).collect();
+        let tree: Vec<&Vec<u8>> = d.tree.iter().map(|t| &t.0).collect();
+        if hash != tree {
+            report.violation(
+                "range|stress-supplement|index disagreement".to_string(),
+                format!(
+                    "C14: after concurrent delete / insert_if_absent / insert on the same keys the hash index holds {:?} but the ordered index holds {:?} (found by the free-running sampling supplement, round {rounds})",
+                    hash.iter().map(|k| show(k)).collect::<Vec<_>>(),
+                    tree.iter().map(|k| show(k)).collect::<Vec<_>>()
+                ),
+                json!({"engine":"c14-stress","round":rounds}),
+            );
+            break;
+        }
+        drop(st);
+        sut.close();
+    }
+    report.set("sampling_supplement", json!({"rounds": rounds, "operations": ops, "note": "free-running threads, not exhaustive, not counted in states/transitions"}));
+}
